@@ -7,6 +7,7 @@ import CCVerif.Model.Equate
 import CCVerif.Lemmas.Equate
 import CCVerif.Model.Synth
 import CCVerif.Lemmas.Synth
+import CCVerif.Lemmas.SynthExact
 /-!
 # C12 — synthesis, merge and equation yield a consistent schema and exact translations
 
@@ -27,6 +28,14 @@ harness line `c12 mergeM`): every operand constituent is represented by a new co
 result, uids and aliases stay unique, the schema's own constituents are untouched; the copy's
 content is the operand's content renamed once — except for a constituent that mentions itself
 (`merge_exact_counterexample`, a defect of the code, recorded finding C12-merge-self-mention).
+
+Fourth and fifth part (namespaces `CCVerif.Equate`, `CCVerif.Synth`): `RSEquationProcessor::Execute`
+and `BinarySynthes`. End-to-end exactness through the whole pipeline (`MergeWith`,
+`DeleteDuplicates` | `TranslateEquations` + `Equate`, `ResetAliases`, substitution of the
+translations): `resetAliases_exact`, `renamed_trans`, `equate_exact` (texts included),
+`synth_exact` (every operand constituent: same kind, content renamed once by the final renaming;
+equated pairs: which side's content the survivor carries, per kind and text mode),
+`synth_nothing_else`, `synth_aliases_canonical`. Helper lemmas: Lemmas/SynthExact.lean.
 -/
 namespace CCVerif.Translation
 
@@ -565,6 +574,27 @@ example : IsMergeRenaming exampleB exampleMerged.1 exampleMerged.2 exampleRenami
       Tok.mention c2.alias ∈ c2.rest.flatten :=
   ⟨exampleRenaming_is "D3" (Or.inl rfl), exampleB[1], by decide, exampleMerged.1[4], by decide, by decide, by decide⟩
 
+/-- **merge_renaming_exists**: the renaming of a merge exists (the hypothesis of `merge_exact` is
+always satisfiable): the substitution `MergeWith` applies to the copies. -/
+theorem merge_renaming_exists {g : Names} {freshs : List Nat} {a b r : Schema} {tr : Tr}
+    (ha : WF a) (hb : WF b) (h : mergeWith g freshs a b = some (r, tr)) :
+    ∃ m, IsMergeRenaming b r tr m := by
+  rcases merge_unfold ha hb h with ⟨st, hi, _, rfl, rfl⟩
+  refine ⟨ctxFn st.repl, ?_, fun x hx => ctxFn_not_key _ _ (fun hk => hx (hi.keysRepl _ hk))⟩
+  intro c2 hc2 s' hs' hl
+  rcases List.mem_map.1 hs' with ⟨s, hs, rfl⟩
+  rcases hi.repr c2 hc2 with ⟨s0, hs0, hl0, _, _, hctx, _, _⟩
+  have hsu : s.uid = s0.uid := by
+    have := hl.symm.trans hl0
+    rw [fin_uid] at this
+    exact Option.some.inj this
+  have : s = s0 := eq_of_mem_nodup (·.uid) st.a s s0 hi.nodupU hs hs0 hsu
+  subst this
+  rw [hctx, fin_alias]
+
+example : ∃ m, IsMergeRenaming exampleB exampleMerged.1 exampleMerged.2 m :=
+  merge_renaming_exists (g := realNames) (freshs := [77]) (a := exampleA) (by unfold WF; decide) (by unfold WF; decide) (by decide)
+
 /-- **merge_pinned_counterexample**: the code before repair d6a760d (model `mergeWithPinned`:
 `RSCore::InsertCopy(target, source)` renames the copy's own alias `D1 ↦ D3` inside its content,
 then `MergeWith` applied `{D1↦D3, D2↦D4, D3↦D5}` to the same content) violates the clause: the
@@ -942,6 +972,635 @@ theorem synth_total_valid {g : Names} {freshs : List Nat} {semOk : Bool} {op1 op
               rw [hk', hv'] at this; exact this
             · have := (hrepE.2.1 e' he').2
               rw [hk', hv'] at this; exact this.symm
+
+/-! ### end-to-end exactness: the stages -/
+
+private theorem image_of_lookup {t : Tr} {k v : Nat} (h : lookup t k = some v) : image t k = v := by
+  unfold image; rw [h]; rfl
+
+/-- the duplicate removal as one stage -/
+private theorem dedup_stage {l r : Schema} {tr : Tr} (hw : WF l) (h : dedup l = some (r, tr)) :
+    StageExact l r tr [] (finalAlias l r tr) ∧ ∀ x ∈ aliases r, x ∈ aliases l := by
+  have hsurv := dedup_survivors hw h
+  have hpart := dedup_partition hw h
+  have hspec := finalAlias_spec hw h
+  have hnd := List.nodup_append.1 hpart.2.1
+  have hi : Inv l r tr := loop_inv hw.1 _ _ _ _ _ (inv_init l hw.1 hw.2) h
+  refine ⟨⟨hi.nodupU, hi.nodupA, ?_, hspec.1, ?_, ?_, ?_, dedup_represented hw h⟩, ?_⟩
+  · intro c hc s hs hsu; exact hspec.2 c hc s hs hsu
+  · intro c hc _
+    exact dedup_exact hw h c hc
+  · intro q hq; cases hq
+  · intro s hs
+    rcases hsurv s hs with ⟨c0, hc0, hu, -⟩
+    refine ⟨c0, hc0, hu, (fun hx => by cases hx), ?_⟩
+    rw [image_of_not_key]; exact hu
+    intro hk; exact hnd.2.2 c0.uid hk c0.uid (hu ▸ List.mem_map.2 ⟨s, hs, rfl⟩) rfl
+  · intro x hx
+    rcases List.mem_map.1 hx with ⟨s, hs, rfl⟩
+    rcases hsurv s hs with ⟨c0, hc0, -, ha, -⟩
+    exact List.mem_map.2 ⟨c0, hc0, ha⟩
+
+/-- an accepted equation (with its duplicate removal) as one stage -/
+private theorem equate_stage {semOk : Bool} {l r : Schema} {eqs : List Entry} {tr : Tr}
+    (hw : WF l) (hk : (tkeys eqs).Nodup) (h : equate semOk l eqs = some (r, tr)) :
+    ∃ Q, StageExact l r tr eqs Q ∧ ∀ x ∈ aliases r, x ∈ aliases l := by
+  have hrepE := equate_represented hw hk h
+  rcases equate_unfold h with ⟨hpre, _, trD, hd, rfl⟩
+  have hw3 := wf_beforeDedup hw eqs
+  rcases dedup_stage hw3 hd with ⟨hst, hsub⟩
+  have himgK : ∀ e ∈ eqs, image (superposeWith (eqTr eqs) trD) e.key = image trD e.value := by
+    intro e he
+    rw [image_superpose]; congr 1; exact image_of_lookup (lookup_eqTr hk he)
+  have himgN : ∀ u, u ∉ tkeys eqs → image (superposeWith (eqTr eqs) trD) u = image trD u := by
+    intro u hu
+    rw [image_superpose, image_of_not_key (t := eqTr eqs) (by rw [keys_eqTr eqs hk]; exact hu)]
+  have hctxN : ∀ c ∈ l, c.uid ∉ tkeys eqs → ctxFn (nameSubst l eqs) c.alias = c.alias := by
+    intro c hc hnk
+    apply ctxFn_nameSubst_other
+    intro k hkl hkk hal
+    have : k = c := eq_of_mem_nodup (·.alias) l k c hw.2 hkl hc hal
+    exact hnk (this ▸ hkk)
+  refine ⟨fun x => finalAlias (beforeDedup l eqs) r trD (ctxFn (nameSubst l eqs) x),
+    ⟨hst.nodupU, hst.nodupA, ?_, ?_, ?_, fun q hq => (hrepE.2.1 q hq).2, ?_, hrepE.1⟩, ?_⟩
+  · -- aliases
+    intro c hc s hs hsu
+    by_cases hck : c.uid ∈ tkeys eqs
+    · rcases List.mem_map.1 hck with ⟨e, he, hek⟩
+      have hpe := precheck_entry hpre he
+      rcases findUid_of_uid hw.1 hpe.2.1 with ⟨v, hv, hvu, hfv⟩
+      have hfk : findUid l e.key = some c := by rw [hek]; exact findUid_of_mem hw.1 hc
+      show finalAlias _ r trD (ctxFn (nameSubst l eqs) c.alias) = s.alias
+      rw [ctxFn_nameSubst_key hw.2 hk he hfk hfv]
+      rcases mem_beforeDedup_of hw.1 hpre hk hv (by rw [hvu]; exact hpe.2.2.2) with ⟨v3, hv3, hu3, ha3, -⟩
+      rw [← ha3]
+      apply hst.aliasOf v3 hv3 s hs
+      rw [hsu, ← hek, himgK e he, hu3, hvu]
+    · show finalAlias _ r trD (ctxFn (nameSubst l eqs) c.alias) = s.alias
+      rw [hctxN c hc hck]
+      rcases mem_beforeDedup_of hw.1 hpre hk hc hck with ⟨c3, hc3, hu3, ha3, -⟩
+      rw [← ha3]
+      apply hst.aliasOf c3 hc3 s hs
+      rw [hsu, himgN _ hck, hu3]
+  · -- other names
+    intro x hx
+    show finalAlias _ r trD (ctxFn (nameSubst l eqs) x) = x
+    rw [ctxFn_nameSubst_other (fun k hkl _ hal => hx (List.mem_map.2 ⟨k, hkl, hal⟩))]
+    exact hst.off x (fun hm => hx ((aliases_beforeDedup_sublist l eqs).subset hm))
+  · -- content
+    intro c hc hnk
+    rcases mem_beforeDedup_of hw.1 hpre hk hc hnk with ⟨c3, hc3, hu3, _, hk3, hd3, hr3⟩
+    rcases hst.content c3 hc3 (by simp [tkeys]) with ⟨s, hs, hsu, hsk, hsd, hsr⟩
+    refine ⟨s, hs, ?_, hsk.trans hk3, ?_, ?_⟩
+    · rw [hsu, hu3, himgN _ hnk]
+    · rw [hsd, hd3, map_renTok_comp]; rfl
+    · have : textsAfter (beforeDedup l eqs) [] c3 = c3.rest := rfl
+      rw [hsr, this, hr3, map_map_renTok_comp]; rfl
+  · -- nothing else
+    intro s hs
+    rcases hst.kept s hs with ⟨c3, hc3, hu3, _, himg3⟩
+    clear hsub
+    rcases mem_beforeDedup hc3 with ⟨hnk3, c0, hc0, hu0, -⟩
+    refine ⟨c0, hc0, hu0.trans hu3, by rw [hu0]; exact hnk3, ?_⟩
+    rw [himgN _ (by rw [hu0]; exact hnk3), hu0]; exact himg3
+  · intro x hx
+    exact (aliases_beforeDedup_sublist l eqs).subset (hsub x hx)
+
+/-- `ResetAliases` after a stage: still one stage, with the renaming composed -/
+private theorem reset_stage {g : Names} {m e r : Schema} {trE : Tr} {tq : List Entry} {Q : String → String}
+    (hst : StageExact m e trE tq Q) (hsub : ∀ x ∈ aliases e, x ∈ aliases m)
+    (hr : resetAliases g e = some r) :
+    (∃ R, StageExact m r trE tq R) ∧ aliases r = canonical g (r.map (·.kind)) [] := by
+  rcases resetAliases_eq hst.nodupA hr with ⟨ρ, rfl, hoff, hcan⟩
+  have hur : uids (e.map (substAliases ρ)) = uids e := uids_resetAliases hr
+  refine ⟨?_, by rw [hcan]; simp [List.map_map, Function.comp_def, substAliases_kind]⟩
+  refine ⟨fun x => ρ (Q x), ?_, aliases_resetAliases_nodup hst.nodupA hr, ?_, ?_, ?_, hst.pairs, ?_, ?_⟩
+  · rw [hur]; exact hst.nodupU
+  · intro c hc s hs hsu
+    rcases List.mem_map.1 hs with ⟨s0, hs0, rfl⟩
+    show ρ (Q c.alias) = ρ s0.alias
+    rw [hst.aliasOf c hc s0 hs0 hsu]
+  · intro x hx
+    show ρ (Q x) = x
+    rw [hst.off x hx]
+    exact hoff x (fun hm => hx (hsub x hm))
+  · intro c hc hnk
+    rcases hst.content c hc hnk with ⟨s0, hs0, hsu, hsk, hsd, hsr⟩
+    refine ⟨substAliases ρ s0, List.mem_map.2 ⟨s0, hs0, rfl⟩, hsu, hsk, ?_, ?_⟩
+    · show s0.definition.map (renTok ρ) = _
+      rw [hsd, map_renTok_comp]; rfl
+    · show s0.rest.map (·.map (renTok ρ)) = _
+      rw [hsr, map_map_renTok_comp]; rfl
+  · intro s hs
+    rcases List.mem_map.1 hs with ⟨s0, hs0, rfl⟩
+    exact hst.kept s0 hs0
+  · rw [hur]; exact hst.img
+
+/-- what the merge does to the second operand, in one place -/
+private theorem merge_facts {g : Names} {freshs : List Nat} {op1 op2 m : Schema} {trM : Tr}
+    (hw1 : WF op1) (hw2 : WF op2) (hm : mergeWith g freshs op1 op2 = some (m, trM)) :
+    ∃ m1, IsMergeRenaming op2 m trM m1 ∧
+      ∀ c2 ∈ op2, ∃ s ∈ m, lookup trM c2.uid = some s.uid ∧ s.uid ∉ uids op1 ∧
+        s.alias ∉ aliases op1 ∧ Renamed m1 c2 s := by
+  rcases merge_renaming_exists hw1 hw2 hm with ⟨m1, hm1⟩
+  have hrep := merge_represented hw1 hw2 hm
+  have hcons := merge_consistent hw1 hw2 hm
+  refine ⟨m1, hm1, ?_⟩
+  intro c2 hc2
+  rcases hrep.1 c2 hc2 with ⟨s, hs, hl, hnew, hkind⟩
+  have hex := merge_exact hw1 hw2 hm hm1 c2 hc2 s hs hl
+  refine ⟨s, hs, hl, hnew, ?_, hkind, hex.1, hex.2⟩
+  intro hal
+  rcases List.mem_map.1 hal with ⟨a, ha, haa⟩
+  have : a = s := eq_of_mem_nodup (·.alias) m a s hcons.1.2 (hcons.2.1 a ha) hs haa
+  exact hnew (this ▸ List.mem_map.2 ⟨a, ha, rfl⟩)
+
+/-- a defined synthesis, taken apart: the merge, then ONE stage (duplicate removal, or equation
+with the translated table) followed by `ResetAliases`, and the two translations -/
+private theorem synth_unfold {g : Names} {freshs : List Nat} {semOk : Bool} {op1 op2 r : Schema}
+    {eqs : List Entry} {tr1 tr2 : Tr}
+    (hw1 : WF op1) (hw2 : WF op2) (hk : (tkeys eqs).Nodup)
+    (h : synth g freshs semOk op1 op2 eqs = .ok r tr1 tr2) :
+    ∃ m trM trE tq R, mergeWith g freshs op1 op2 = some (m, trM) ∧ StageExact m r trE tq R ∧
+      tr1 = substituteValues (identity (uids op1)) trE ∧ tr2 = substituteValues trM trE ∧
+      ((eqs = [] ∧ tq = []) ∨
+        (tq = translateEquations m trM eqs ∧ precheck m tq = true ∧
+          ∀ e0 ∈ eqs, e0.key ∈ uids op1 ∧ e0.value ∈ uids op2)) ∧
+      aliases r = canonical g (r.map (·.kind)) [] := by
+  unfold synth at h
+  cases hm : mergeWith g freshs op1 op2 with
+  | none => rw [hm] at h; cases h
+  | some p =>
+    obtain ⟨m, trM⟩ := p
+    rw [hm] at h
+    simp only at h
+    have hcons := merge_consistent hw1 hw2 hm
+    by_cases hempty : eqs.isEmpty = true
+    · simp only [hempty, if_true] at h
+      have he : eqs = [] := by simpa using hempty
+      cases hd : dedup m with
+      | none => rw [hd] at h; cases h
+      | some q =>
+        obtain ⟨e, trE⟩ := q
+        rw [hd] at h
+        simp only at h
+        cases hr : resetAliases g e with
+        | none => rw [hr] at h; cases h
+        | some r' =>
+          rw [hr] at h
+          simp only [Res.ok.injEq] at h
+          obtain ⟨rfl, rfl, rfl⟩ := h
+          rcases dedup_stage hcons.1 hd with ⟨hst, hsub⟩
+          rcases reset_stage hst hsub hr with ⟨⟨R, hR⟩, hcan⟩
+          exact ⟨m, trM, trE, [], R, rfl, hR, rfl, rfl, Or.inl ⟨he, rfl⟩, hcan⟩
+    · have hne : eqs.isEmpty = false := by simpa using hempty
+      simp only [hne, Bool.false_eq_true, if_false] at h
+      split at h
+      · cases h
+      · rename_i hall
+        have hall' : ∀ e0 ∈ eqs, e0.key ∈ uids op1 ∧ e0.value ∈ uids op2 := by
+          intro e0 he0
+          simp only [Bool.not_eq_true, Bool.not_eq_false', List.all_eq_true, Bool.and_eq_true] at hall
+          have := hall e0 he0
+          exact ⟨by simpa using this.1, by simpa using this.2⟩
+        cases hq : equate semOk m (translateEquations m trM eqs) with
+        | none => rw [hq] at h; cases h
+        | some q =>
+          obtain ⟨e, trE⟩ := q
+          rw [hq] at h
+          simp only at h
+          cases hr : resetAliases g e with
+          | none => rw [hr] at h; cases h
+          | some r' =>
+            rw [hr] at h
+            simp only [Res.ok.injEq] at h
+            obtain ⟨rfl, rfl, rfl⟩ := h
+            have hte := translateEquations_keeps m trM eqs hk
+            rcases equate_stage hcons.1 hte.1 hq with ⟨Q, hst, hsub⟩
+            rcases reset_stage hst hsub hr with ⟨⟨R, hR⟩, hcan⟩
+            exact ⟨m, trM, trE, _, R, rfl, hR, rfl, rfl, Or.inr ⟨rfl, (equate_unfold hq).1, hall'⟩, hcan⟩
+
+/-- **resetAliases_exact**: `RSCore::ResetAliases` is itself an exact renaming. There is ONE
+function `ρ` on names such that the result is the schema itself, constituent by constituent in the
+same order, with the same uid and kind, the alias `ρ(alias)`, and definition, convention and texts
+with every mention renamed once by `ρ`; `ρ` leaves every name alone that is no alias of the schema;
+the new aliases are the canonical numbering (in list order each constituent gets the name the rule
+generates for its kind given the names handed out before it) and are pairwise distinct. -/
+theorem resetAliases_exact {g : Names} {l r : Schema} (hA : (aliases l).Nodup)
+    (h : resetAliases g l = some r) :
+    ∃ ρ : String → String, (∀ x, x ∉ aliases l → ρ x = x) ∧
+      r.length = l.length ∧
+      (∀ i (h1 : i < l.length) (h2 : i < r.length),
+        r[i].uid = l[i].uid ∧ r[i].alias = ρ l[i].alias ∧ Renamed ρ l[i] r[i]) ∧
+      aliases r = canonical g (l.map (·.kind)) [] ∧ (aliases r).Nodup := by
+  rcases resetAliases_eq hA h with ⟨ρ, rfl, hoff, hcan⟩
+  refine ⟨ρ, hoff, by simp, ?_, hcan, aliases_resetAliases_nodup hA h⟩
+  intro i h1 h2
+  simp only [List.getElem_map]
+  exact ⟨rfl, rfl, substAliases_renamed ρ _⟩
+
+/-- **renamed_trans**: the composition of exact renamings is exact. -/
+theorem renamed_trans {f g : String → String} {a b c : Cst} (h1 : Renamed g a b) (h2 : Renamed f b c) :
+    Renamed (fun x => f (g x)) a c := h1.trans h2
+
+example (ρ : String → String) (c : Cst) : Renamed (fun x => ρ (ρ x)) c (substAliases ρ (substAliases ρ c)) :=
+  renamed_trans (substAliases_renamed ρ c) (substAliases_renamed ρ _)
+
+/-- non-vacuity of `resetAliases_exact`, and the canonical numbering on an instance (the aliases
+`X7 D5 D2` become `X1 D1 D2`, the mention of `D5` follows) -/
+example : ∃ l r, (aliases l).Nodup ∧ resetAliases realNames l = some r ∧
+    aliases r = ["X1", "D1", "D2"] ∧ canonical realNames [1, 6, 6] [] = ["X1", "D1", "D2"] ∧
+    ∃ s ∈ r, Tok.mention "D1" ∈ s.definition :=
+  ⟨[ { uid := 5, alias := "X7", kind := 1, definition := [], rest := [] },
+     { uid := 3, alias := "D5", kind := 6, definition := [.mention "X7"], rest := [] },
+     { uid := 9, alias := "D2", kind := 6, definition := [.mention "D5", .sym "\\", .mention "X7"], rest := [] } ],
+   [ { uid := 5, alias := "X1", kind := 1, definition := [], rest := [] },
+     { uid := 3, alias := "D1", kind := 6, definition := [.mention "X1"], rest := [] },
+     { uid := 9, alias := "D2", kind := 6, definition := [.mention "D1", .sym "\\", .mention "X1"], rest := [] } ],
+   by decide, by decide, by decide, by decide,
+   { uid := 9, alias := "D2", kind := 6, definition := [.mention "D1", .sym "\\", .mention "X1"], rest := [] },
+   by decide, by decide⟩
+
+/-- **equate_exact**: the clause "every mention of a removed or renamed constituent is rewritten
+to its image" for `Equate`, texts included (`StageExact`, Lemmas/SynthExact.lean): there is a
+renaming `Q` (alias of a constituent ↦ alias of its image, every other name stays) such that the
+image of every constituent that is no key has its kind, its definition with every mention renamed
+once by `Q`, and — renamed once by `Q` — the texts `textsAfter l eqs c`: its own convention, term
+text and definition text, except that every equation with this constituent as value, in table
+order, puts the deleted constituent's term text and definition text there (keepDel) or the new
+term text (createNew); the deleted constituent's texts are read off the ORIGINAL schema. Key and
+value of an equation have one image; every constituent of the result is the image of itself. -/
+theorem equate_exact {semOk : Bool} {l r : Schema} {eqs : List Entry} {tr : Tr}
+    (hw : WF l) (hk : (tkeys eqs).Nodup) (h : equate semOk l eqs = some (r, tr)) :
+    ∃ Q, StageExact l r tr eqs Q :=
+  let ⟨Q, hQ, _⟩ := equate_stage hw hk h
+  ⟨Q, hQ⟩
+
+/-- on the example: `D1` is the value of the keepDel equation and takes the texts of `D2` -/
+example : textsAfter Equate.exampleSchema exampleTable Equate.exampleSchema[1] =
+    [[], [.sym "two"], [.sym "see @{", .mention "D2", .sym "|nomn,sing}"]] := by decide
+
+/-! ### end-to-end exactness: the theorem -/
+
+/-- the values of a table -/
+def tvalues (eqs : List Entry) : List Nat := eqs.map (·.value)
+
+/-- `TranslateEquations` turns the equation `k = v` round (the constituent of operand 1 survives):
+the kinds differ, `k` is no base set and `v` is a base notion -/
+def swapNeeded (k v : Cst) : Bool := k.kind != v.kind && !isBaseSet k.kind && isBaseNotion v.kind
+
+/-- `F1`, `F2` are *the* final renamings of a synthesis, for the mentions inside operand 1 and
+operand 2: the alias of an operand constituent goes to the alias of the constituent of the result
+its uid is translated to. A name `x` that is no alias of the operand (a mention that resolves to
+nothing there) is treated as the merge treats it: inside operand 2 it is read as a name of the
+merged schema (`F2 = F1 ∘ m1`, `m1` the renaming of the merge, identity on such `x`), and a name of
+the merged schema that is neither an alias of operand 1 nor the alias of a copy stays. -/
+structure IsSynthRenaming (op1 op2 r : Schema) (tr1 tr2 : Tr) (F1 F2 : String → String) : Prop where
+  alias1 : ∀ c ∈ op1, ∀ s ∈ r, lookup tr1 c.uid = some s.uid → F1 c.alias = s.alias
+  alias2 : ∀ c ∈ op2, ∀ s ∈ r, lookup tr2 c.uid = some s.uid → F2 c.alias = s.alias
+  other : ∃ m1 : String → String, (∀ x, F2 x = F1 (m1 x)) ∧ (∀ x, x ∉ aliases op2 → m1 x = x) ∧
+    (∀ c ∈ op2, m1 c.alias ∉ aliases op1) ∧
+    (∀ x, x ∉ aliases op1 → (∀ c ∈ op2, m1 c.alias ≠ x) → F1 x = x)
+
+/-- every entry of the table handed to `Equate` is an equation of the synthesis with its value
+translated into the merged schema, as it is or turned round -/
+private theorem tq_entry {trM : Tr} {eqs tq : List Entry} (hT : Tracks (substEqs trM eqs) tq)
+    {e : Entry} (he : e ∈ tq) :
+    ∃ e0 ∈ eqs, e = { e0 with value := image trM e0.value } ∨
+      e = swapped { e0 with value := image trM e0.value } := by
+  rcases hT.origin e he with h1 | ⟨e1, h1, rfl⟩
+  · rcases List.mem_map.1 h1 with ⟨e0, he0, rfl⟩
+    exact ⟨e0, he0, Or.inl rfl⟩
+  · rcases List.mem_map.1 h1 with ⟨e0, he0, rfl⟩
+    exact ⟨e0, he0, Or.inr rfl⟩
+
+/-- everything the three end-to-end theorems need, in one place -/
+private theorem synth_core {g : Names} {freshs : List Nat} {semOk : Bool} {op1 op2 r : Schema}
+    {eqs : List Entry} {tr1 tr2 : Tr}
+    (hw1 : WF op1) (hw2 : WF op2) (hk : (tkeys eqs).Nodup)
+    (h : synth g freshs semOk op1 op2 eqs = .ok r tr1 tr2) :
+    ∃ m trM trE tq R m1, mergeWith g freshs op1 op2 = some (m, trM) ∧ StageExact m r trE tq R ∧
+      IsMergeRenaming op2 m trM m1 ∧
+      (∀ c ∈ op1, c ∈ m ∧ lookup tr1 c.uid = some (image trE c.uid)) ∧
+      (∀ c2 ∈ op2, ∃ s' ∈ m, lookup trM c2.uid = some s'.uid ∧ s'.uid ∉ uids op1 ∧
+        s'.alias ∉ aliases op1 ∧ Renamed m1 c2 s' ∧ lookup tr2 c2.uid = some (image trE s'.uid)) ∧
+      (∀ e0 ∈ eqs, e0.key ∈ uids op1 ∧ e0.value ∈ uids op2) ∧
+      (∀ e ∈ tq, ∃ e0 ∈ eqs, e = { e0 with value := image trM e0.value } ∨
+        e = swapped { e0 with value := image trM e0.value }) ∧
+      (∀ e0 ∈ eqs, (needsSwap m { e0 with value := image trM e0.value } = false ∧
+          { e0 with value := image trM e0.value } ∈ tq) ∨
+        (needsSwap m { e0 with value := image trM e0.value } = true ∧
+          swapped { e0 with value := image trM e0.value } ∈ tq)) ∧
+      (tkeys tq).Nodup ∧ (∀ e ∈ tq, e.value ∉ tkeys tq) := by
+  rcases synth_unfold hw1 hw2 hk h with ⟨m, trM, trE, tq, R, hm, hR, rfl, rfl, hcase, -⟩
+  rcases merge_facts hw1 hw2 hm with ⟨m1, hm1, hcopy⟩
+  have hcons := merge_consistent hw1 hw2 hm
+  refine ⟨m, trM, trE, tq, R, m1, hm, hR, hm1, ?_, ?_, ?_⟩
+  · intro c hc
+    exact ⟨hcons.2.1 c hc, lookup_subst_identity _ _ _ (List.mem_map.2 ⟨c, hc, rfl⟩)⟩
+  · intro c2 hc2
+    rcases hcopy c2 hc2 with ⟨s', hs', hl, h1, h2, h3⟩
+    exact ⟨s', hs', hl, h1, h2, h3, lookup_subst_of _ _ _ _ hl⟩
+  · rcases hcase with ⟨rfl, rfl⟩ | ⟨rfl, hpre, hall⟩
+    · exact ⟨(fun _ h => by cases h), (fun _ h => by cases h), (fun _ h => by cases h), List.nodup_nil,
+        (fun _ h => by cases h)⟩
+    · have hvalnew : ∀ e0 ∈ eqs, image trM e0.value ∉ uids op1 := by
+        intro e0 he0
+        rcases List.mem_map.1 (hall e0 he0).2 with ⟨v, hv, hvu⟩
+        rcases hcopy v hv with ⟨v', _, hl, hnew, -⟩
+        rw [← hvu, image_of_lookup hl]; exact hnew
+      have hdisj : ∀ e1 ∈ substEqs trM eqs, e1.value ∉ tkeys eqs := by
+        intro e1 he1 hmem
+        rcases List.mem_map.1 he1 with ⟨e0, he0, rfl⟩
+        rcases List.mem_map.1 hmem with ⟨e2, he2, h2⟩
+        have h2' : e2.key = image trM e0.value := h2
+        exact hvalnew e0 he0 (by rw [← h2']; exact (hall e2 he2).1)
+      rcases translateEquations_tracks m trM eqs hk hdisj with ⟨hT, hT2⟩
+      refine ⟨hall, fun e he => tq_entry hT he, ?_, hT.nodup, fun e he => (precheck_entry hpre he).2.2.2⟩
+      intro e0 he0
+      have hmem : ({ e0 with value := image trM e0.value } : Entry) ∈ substEqs trM eqs :=
+        List.mem_map.2 ⟨e0, he0, rfl⟩
+      cases hns : needsSwap m { e0 with value := image trM e0.value } with
+      | false => exact Or.inl ⟨rfl, hT2 _ hmem hns⟩
+      | true =>
+        refine Or.inr ⟨rfl, ?_⟩
+        rcases hT.present _ hmem with h1 | h1
+        · have := precheckFor_not_needsSwap (precheck_for hpre h1)
+          rw [hns] at this; cases this
+        · exact h1
+
+/-- **synth_exact**: the end-to-end clause of the property for a synthesis that was defined and
+executed — through the whole pipeline `MergeWith`, (`DeleteDuplicates` | `TranslateEquations` +
+`Equate`), `ResetAliases`, substitution of the translations — for all operands with pairwise
+distinct uids and aliases and every table with distinct keys. There are final renamings `F1`, `F2`
+(`IsSynthRenaming`: operand alias ↦ alias of the image in the result) such that
+
+* a constituent of operand 1 that is no key of the table, and a constituent of operand 2 that is no
+  value, is represented by a constituent of the result of the same kind whose definition,
+  convention and texts are its own with every mention renamed ONCE by the final renaming;
+* the two sides `k` (operand 1), `v` (operand 2) of an equation are represented by ONE constituent
+  `s`. It carries kind, definition and convention of `v` (renamed by `F2`) — unless the equation
+  is turned round (`swapNeeded`: kinds differ, `k` no base set, `v` a base notion), then those of
+  `k` (renamed by `F1`). Term text and definition text (`pairTexts`, places 1 and 2 of `rest`):
+  keepHier (mode 1) those of `v`, keepDel (mode 2) those of `k`, createNew (3) the new term text
+  (renamed as a text of the merged schema) and the survivor's definition text — each renamed by the
+  final renaming of the operand it comes from. For the not-turned case the texts clause asks that
+  no other equation has the same value (then the last one in the iteration order of the hash map
+  would win: `equate_exact`). -/
+theorem synth_exact {g : Names} {freshs : List Nat} {semOk : Bool} {op1 op2 r : Schema}
+    {eqs : List Entry} {tr1 tr2 : Tr}
+    (hw1 : WF op1) (hw2 : WF op2) (hk : (tkeys eqs).Nodup)
+    (h : synth g freshs semOk op1 op2 eqs = .ok r tr1 tr2) :
+    ∃ F1 F2, IsSynthRenaming op1 op2 r tr1 tr2 F1 F2 ∧
+      (∀ c ∈ op1, c.uid ∉ tkeys eqs → ∃ s ∈ r, lookup tr1 c.uid = some s.uid ∧ Renamed F1 c s) ∧
+      (∀ c ∈ op2, c.uid ∉ tvalues eqs → ∃ s ∈ r, lookup tr2 c.uid = some s.uid ∧ Renamed F2 c s) ∧
+      (∀ e0 ∈ eqs, ∀ k ∈ op1, ∀ v ∈ op2, k.uid = e0.key → v.uid = e0.value →
+        ∃ s ∈ r, lookup tr1 k.uid = some s.uid ∧ lookup tr2 v.uid = some s.uid ∧
+          (swapNeeded k v = false →
+            s.kind = v.kind ∧ s.definition = v.definition.map (renTok F2) ∧
+            (∀ i, i ≠ 1 → i ≠ 2 → s.rest[i]? = (v.rest.map (·.map (renTok F2)))[i]?) ∧
+            ((∀ e' ∈ eqs, e'.value = e0.value → e' = e0) →
+              s.rest = pairTexts (v.rest.map (·.map (renTok F2))) (k.rest.map (·.map (renTok F1)))
+                e0.mode (e0.arg.map (renTok F1)))) ∧
+          (swapNeeded k v = true →
+            s.kind = k.kind ∧ s.definition = k.definition.map (renTok F1) ∧
+            s.rest = pairTexts (k.rest.map (·.map (renTok F1))) (v.rest.map (·.map (renTok F2)))
+              (flipMode e0.mode) (e0.arg.map (renTok F1)))) := by
+  rcases synth_core hw1 hw2 hk h with
+    ⟨m, trM, trE, tq, R, m1, hm, hR, hm1, h1, h2, hall, hentry, hpresent, hnd, hvk⟩
+  have hcons := merge_consistent hw1 hw2 hm
+  have hinj : ∀ {x y u : Nat}, lookup trM x = some u → lookup trM y = some u → x = y :=
+    fun hx hy => mergeWith_injective hw1.1 hw1.2 hw2.1 hw2.2 hm hx hy
+  -- the image of a value of the table under the merge
+  have hval : ∀ e0 ∈ eqs, ∃ v ∈ op2, v.uid = e0.value ∧ ∃ v' ∈ m, lookup trM v.uid = some v'.uid ∧
+      image trM e0.value = v'.uid ∧ v'.uid ∉ uids op1 := by
+    intro e0 he0
+    rcases List.mem_map.1 (hall e0 he0).2 with ⟨v, hv, hvu⟩
+    rcases h2 v hv with ⟨v', hv', hl, hnew, -⟩
+    exact ⟨v, hv, hvu, v', hv', hl, by rw [← hvu, image_of_lookup hl], hnew⟩
+  -- entries of the translated table: keys and values
+  have hshape : ∀ e ∈ tq, ∃ e0 ∈ eqs,
+      (e.key = e0.key ∧ e.value = image trM e0.value) ∨ (e.key = image trM e0.value ∧ e.value = e0.key) := by
+    intro e he
+    rcases hentry e he with ⟨e0, he0, rfl | rfl⟩
+    · exact ⟨e0, he0, Or.inl ⟨rfl, rfl⟩⟩
+    · exact ⟨e0, he0, Or.inr ⟨rfl, rfl⟩⟩
+  have hK1 : ∀ c ∈ op1, c.uid ∉ tkeys eqs → c.uid ∉ tkeys tq ∧ ∀ e ∈ tq, e.value ≠ c.uid := by
+    intro c hc hnk
+    have hcu : c.uid ∈ uids op1 := List.mem_map.2 ⟨c, hc, rfl⟩
+    have key : ∀ e ∈ tq, e.key ≠ c.uid ∧ e.value ≠ c.uid := by
+      intro e he
+      rcases hshape e he with ⟨e0, he0, ⟨ha, hb⟩ | ⟨ha, hb⟩⟩
+      · rcases hval e0 he0 with ⟨_, _, _, v', _, _, himg, hnew⟩
+        exact ⟨fun x => hnk (List.mem_map.2 ⟨e0, he0, ha.symm.trans x⟩),
+          fun x => hnew (by rw [← himg, ← hb, x]; exact hcu)⟩
+      · rcases hval e0 he0 with ⟨_, _, _, v', _, _, himg, hnew⟩
+        exact ⟨fun x => hnew (by rw [← himg, ← ha, x]; exact hcu),
+          fun x => hnk (List.mem_map.2 ⟨e0, he0, hb.symm.trans x⟩)⟩
+    exact ⟨fun hmem => by
+      rcases List.mem_map.1 hmem with ⟨e, he, hek⟩
+      exact (key e he).1 hek, fun e he => (key e he).2⟩
+  have hK2 : ∀ c2 ∈ op2, c2.uid ∉ tvalues eqs → ∀ s' ∈ m, lookup trM c2.uid = some s'.uid →
+      s'.uid ∉ uids op1 → s'.uid ∉ tkeys tq ∧ ∀ e ∈ tq, e.value ≠ s'.uid := by
+    intro c2 hc2 hnv s' hs' hl hnew'
+    have key : ∀ e ∈ tq, e.key ≠ s'.uid ∧ e.value ≠ s'.uid := by
+      intro e he
+      rcases hshape e he with ⟨e0, he0, ⟨ha, hb⟩ | ⟨ha, hb⟩⟩
+      · rcases hval e0 he0 with ⟨v, _, hvu, v', _, hlv, himg, _⟩
+        refine ⟨fun x => hnew' (by rw [← x, ha]; exact (hall e0 he0).1), fun x => hnv ?_⟩
+        have : v.uid = c2.uid := hinj hlv (by rw [← himg, ← hb, x]; exact hl)
+        exact List.mem_map.2 ⟨e0, he0, by rw [← hvu, this]⟩
+      · rcases hval e0 he0 with ⟨v, _, hvu, v', _, hlv, himg, _⟩
+        refine ⟨fun x => hnv ?_, fun x => hnew' (by rw [← x, hb]; exact (hall e0 he0).1)⟩
+        have : v.uid = c2.uid := hinj hlv (by rw [← himg, ← ha, x]; exact hl)
+        exact List.mem_map.2 ⟨e0, he0, by rw [← hvu, this]⟩
+    exact ⟨fun hmem => by
+      rcases List.mem_map.1 hmem with ⟨e, he, hek⟩
+      exact (key e he).1 hek, fun e he => (key e he).2⟩
+  refine ⟨R, fun x => R (m1 x), ⟨?_, ?_, m1, fun _ => rfl, hm1.2, ?_, ?_⟩, ?_, ?_, ?_⟩
+  · -- alias1
+    intro c hc s hs hl
+    refine hR.aliasOf c (h1 c hc).1 s hs ?_
+    have := hl.symm.trans (h1 c hc).2
+    exact Option.some.inj this
+  · -- alias2
+    intro c hc s hs hl
+    rcases h2 c hc with ⟨s', hs', hlM, _, _, _, hl2⟩
+    show R (m1 c.alias) = s.alias
+    rw [hm1.1 c hc s' hs' hlM]
+    refine hR.aliasOf s' hs' s hs ?_
+    exact Option.some.inj (hl.symm.trans hl2)
+  · intro c hc
+    rcases h2 c hc with ⟨s', hs', hlM, _, hna, _, _⟩
+    rw [hm1.1 c hc s' hs' hlM]; exact hna
+  · intro x hx1 hx2
+    apply hR.off
+    intro hmem
+    rcases List.mem_map.1 hmem with ⟨s, hs, rfl⟩
+    rcases mergeWith_origin hw1.1 hw1.2 hw2.1 hw2.2 hm s hs with ho | ⟨c2, hc2, hl⟩
+    · exact hx1 (List.mem_map.2 ⟨s, ho, rfl⟩)
+    · exact hx2 c2 hc2 (hm1.1 c2 hc2 s hs hl)
+  · -- operand 1, not equated
+    intro c hc hnk
+    rcases hK1 c hc hnk with ⟨hnk', hnv'⟩
+    rcases hR.content c (h1 c hc).1 hnk' with ⟨s, hs, hsu, hsk, hsd, hsr⟩
+    refine ⟨s, hs, by rw [hsu]; exact (h1 c hc).2, hsk, hsd, ?_⟩
+    rw [hsr, textsAfter_of_not_value hnv']
+  · -- operand 2, not equated
+    intro c hc hnv
+    rcases h2 c hc with ⟨s', hs', hlM, hnew, _, hren, hl2⟩
+    rcases hK2 c hc hnv s' hs' hlM hnew with ⟨hnk', hnv'⟩
+    rcases hR.content s' hs' hnk' with ⟨s, hs, hsu, hsk, hsd, hsr⟩
+    refine ⟨s, hs, by rw [hsu]; exact hl2, ?_⟩
+    have : Renamed R s' s := ⟨hsk, hsd, by rw [hsr, textsAfter_of_not_value hnv']⟩
+    exact hren.trans this
+  · -- equated pairs
+    intro e0 he0 k hk1 v hv2 hku hvu
+    rcases h2 v hv2 with ⟨v', hv', hlM, hnew, _, hren, hl2⟩
+    have hkm := (h1 k hk1).1
+    have himg : image trM e0.value = v'.uid := by rw [← hvu]; exact image_of_lookup hlM
+    have hfk : findUid m e0.key = some k := by rw [← hku]; exact findUid_of_mem hcons.1.1 hkm
+    have hfv : findUid m v'.uid = some v' := findUid_of_mem hcons.1.1 hv'
+    have hns : needsSwap m { e0 with value := image trM e0.value } = swapNeeded k v := by
+      unfold needsSwap swapNeeded
+      show (match findUid m e0.key, findUid m (image trM e0.value) with
+        | some k, some v => k.kind != v.kind && !isBaseSet k.kind && isBaseNotion v.kind
+        | _, _ => false) = _
+      rw [himg, hfk, hfv]
+      show (k.kind != v'.kind && !isBaseSet k.kind && isBaseNotion v'.kind) = _
+      rw [hren.1]
+    -- the common image
+    have hks : image trE k.uid ∈ uids r := hR.img k.uid (List.mem_map.2 ⟨k, hkm, rfl⟩)
+    rcases List.mem_map.1 hks with ⟨s, hs, hsu⟩
+    have huniq : ∀ s2 ∈ r, s2.uid = s.uid → s2 = s :=
+      fun s2 hs2 h' => eq_of_mem_nodup (·.uid) r s2 s hR.nodupU hs2 hs h'
+    have hpair : image trE k.uid = image trE v'.uid := by
+      rcases hpresent e0 he0 with ⟨_, hin⟩ | ⟨_, hin⟩
+      · have := hR.pairs _ hin
+        simp only at this
+        rw [hku, this, himg]
+      · have := hR.pairs _ hin
+        simp only [swapped] at this
+        rw [hku, ← this, himg]
+    refine ⟨s, hs, by rw [hsu]; exact (h1 k hk1).2, by rw [hsu, hpair]; exact hl2, ?_, ?_⟩
+    · -- not turned round: the constituent of operand 2 survives
+      intro hsw
+      have hin : ({ e0 with value := image trM e0.value } : Entry) ∈ tq := by
+        rcases hpresent e0 he0 with ⟨_, hin⟩ | ⟨hns', _⟩
+        · exact hin
+        · rw [hns, hsw] at hns'; cases hns'
+      have hnk' : v'.uid ∉ tkeys tq := by
+        have := hvk _ hin
+        simp only at this
+        rw [himg] at this; exact this
+      rcases hR.content v' hv' hnk' with ⟨s2, hs2, hsu2, hsk2, hsd2, hsr2⟩
+      have : s2 = s := huniq s2 hs2 (by rw [hsu2, hsu, hpair])
+      subst this
+      refine ⟨hsk2.trans hren.1, ?_, ?_, ?_⟩
+      · rw [hsd2, hren.2.1, map_renTok_comp]; rfl
+      · intro i hi1 hi2
+        have hcomp : (v.rest.map (·.map (renTok m1))).map (·.map (renTok R)) =
+            v.rest.map (·.map (renTok fun x => R (m1 x))) := map_map_renTok_comp R m1 v.rest
+        rw [hsr2, List.getElem?_map, textsAfter_getElem? m tq v' i hi1 hi2, hren.2.2,
+          ← List.getElem?_map, hcomp]
+      · intro hone
+        have hu : ∀ e ∈ tq, e.value = v'.uid → e = { e0 with value := image trM e0.value } := by
+          intro e he hev
+          rcases hentry e he with ⟨e1, he1, rfl | rfl⟩
+          · rcases hval e1 he1 with ⟨v1, _, hvu1, v1', _, hlv1, himg1, _⟩
+            have hev' : image trM e1.value = v'.uid := hev
+            have : v1.uid = v.uid := hinj hlv1 (by rw [← himg1, hev']; exact hlM)
+            have : e1 = e0 := hone e1 he1 (by rw [← hvu1, this, hvu])
+            subst this; rfl
+          · exfalso
+            have hev' : e1.key = v'.uid := hev
+            exact hnew (by rw [← hev']; exact (hall e1 he1).1)
+        rw [hsr2, textsAfter_unique hnd hin himg hfk hu, map_pairTexts]
+        show pairTexts _ _ e0.mode (e0.arg.map (renTok R)) = _
+        rw [hren.2.2, map_map_renTok_comp]; rfl
+    · -- turned round: the constituent of operand 1 survives
+      intro hsw
+      have hin : swapped { e0 with value := image trM e0.value } ∈ tq := by
+        rcases hpresent e0 he0 with ⟨hns', _⟩ | ⟨_, hin⟩
+        · rw [hns, hsw] at hns'; cases hns'
+        · exact hin
+      have hnk' : k.uid ∉ tkeys tq := by
+        have := hvk _ hin
+        simp only [swapped] at this
+        rw [hku]; exact this
+      rcases hR.content k hkm hnk' with ⟨s2, hs2, hsu2, hsk2, hsd2, hsr2⟩
+      have : s2 = s := huniq s2 hs2 (by rw [hsu2, hsu])
+      subst this
+      refine ⟨hsk2, hsd2, ?_⟩
+      have hu : ∀ e ∈ tq, e.value = k.uid → e = swapped { e0 with value := image trM e0.value } := by
+        intro e he hev
+        rcases hentry e he with ⟨e1, he1, rfl | rfl⟩
+        · exfalso
+          rcases hval e1 he1 with ⟨_, _, _, v1', _, _, himg1, hnew1⟩
+          have hev' : image trM e1.value = k.uid := hev
+          exact hnew1 (by rw [← himg1, hev']; exact List.mem_map.2 ⟨k, hk1, rfl⟩)
+        · have hev' : e1.key = k.uid := hev
+          have : e1 = e0 := entry_eq_of_key hk he1 he0 (by rw [hev', hku])
+          subst this; rfl
+      have hfd : findUid m (swapped { e0 with value := image trM e0.value }).key = some v' := by
+        show findUid m (image trM e0.value) = some v'
+        rw [himg]; exact hfv
+      rw [hsr2, textsAfter_unique hnd hin (by show e0.key = k.uid; exact hku.symm) hfd hu, map_pairTexts]
+      show pairTexts _ _ (flipMode e0.mode) (e0.arg.map (renTok R)) = _
+      rw [hren.2.2, map_map_renTok_comp]; rfl
+
+/-- **synth_nothing_else**: the 'nothing else' half — every constituent of the result of a
+synthesis is the image of a constituent of operand 1 or of operand 2 (under the returned
+translations); nothing is created. -/
+theorem synth_nothing_else {g : Names} {freshs : List Nat} {semOk : Bool} {op1 op2 r : Schema}
+    {eqs : List Entry} {tr1 tr2 : Tr}
+    (hw1 : WF op1) (hw2 : WF op2) (hk : (tkeys eqs).Nodup)
+    (h : synth g freshs semOk op1 op2 eqs = .ok r tr1 tr2) :
+    ∀ s ∈ r, (∃ c ∈ op1, lookup tr1 c.uid = some s.uid) ∨ (∃ c ∈ op2, lookup tr2 c.uid = some s.uid) := by
+  rcases synth_core hw1 hw2 hk h with ⟨m, trM, trE, tq, R, m1, hm, hR, _, h1, h2, -⟩
+  intro s hs
+  rcases hR.kept s hs with ⟨c, hc, _, _, himg⟩
+  rcases mergeWith_origin hw1.1 hw1.2 hw2.1 hw2.2 hm c hc with ho | ⟨c2, hc2, hl⟩
+  · exact Or.inl ⟨c, ho, by rw [← himg]; exact (h1 c ho).2⟩
+  · right
+    rcases h2 c2 hc2 with ⟨s', hs', hlM, _, _, _, hl2⟩
+    have : s'.uid = c.uid := Option.some.inj (hlM.symm.trans hl)
+    exact ⟨c2, hc2, by rw [← himg, ← this]; exact hl2⟩
+
+/-- **synth_aliases_canonical**: the aliases of the result of a synthesis are the canonical
+numbering of its constituents in list order. -/
+theorem synth_aliases_canonical {g : Names} {freshs : List Nat} {semOk : Bool} {op1 op2 r : Schema}
+    {eqs : List Entry} {tr1 tr2 : Tr}
+    (hw1 : WF op1) (hw2 : WF op2) (hk : (tkeys eqs).Nodup)
+    (h : synth g freshs semOk op1 op2 eqs = .ok r tr1 tr2) :
+    aliases r = canonical g (r.map (·.kind)) [] := by
+  rcases synth_unfold hw1 hw2 hk h with ⟨_, _, _, _, _, _, _, _, _, _, hcan⟩
+  exact hcan
+
+/-- operands for an equation that is turned round: the term `D1` of operand 1 is equated with the
+base set `X2` of operand 2 (keepHier: the texts of `X2`), the axiom of operand 2 follows -/
+def exampleTurn1 : Schema :=
+  [ { uid := 1, alias := "X1", kind := 1, definition := [], rest := [[], [], []] },
+    { uid := 2, alias := "D1", kind := 6, definition := [.mention "X1", .sym "∪", .mention "X1"],
+      rest := [[.sym "conv ", .mention "D1"], [.sym "union"], [.sym "def of ", .mention "D1"]] } ]
+def exampleTurn2 : Schema :=
+  [ { uid := 11, alias := "X1", kind := 1, definition := [], rest := [[], [.sym "first"], []] },
+    { uid := 12, alias := "X2", kind := 1, definition := [], rest := [[.sym "c2"], [.sym "second ", .mention "X2"], [.sym "t2"]] },
+    { uid := 13, alias := "A1", kind := 5, definition := [.mention "X2", .sym "=", .mention "X2"], rest := [[], [], []] } ]
+
+/-- non-vacuity of `synth_exact` / `synth_nothing_else` / `synth_aliases_canonical` on a turned
+equation: the survivor is operand 1's `D1` with its own definition and convention and the term text
+and definition text of operand 2's `X2` (mention renamed `X2 ↦ D1`); operand 2's `X1` became `X2` -/
+example : WF exampleTurn1 ∧ WF exampleTurn2 ∧ (tkeys [({ key := 2, value := 12, mode := 1 } : Entry)]).Nodup ∧
+    swapNeeded exampleTurn1[1] exampleTurn2[1] = true ∧
+    synth realNames [] true exampleTurn1 exampleTurn2 [{ key := 2, value := 12, mode := 1 }] =
+      .ok [ { uid := 1, alias := "X1", kind := 1, definition := [], rest := [[], [], []] },
+            { uid := 11, alias := "X2", kind := 1, definition := [], rest := [[], [.sym "first"], []] },
+            { uid := 2, alias := "D1", kind := 6, definition := [.mention "X1", .sym "∪", .mention "X1"],
+              rest := [[.sym "conv ", .mention "D1"], [.sym "second ", .mention "D1"], [.sym "t2"]] },
+            { uid := 13, alias := "A1", kind := 5, definition := [.mention "D1", .sym "=", .mention "D1"], rest := [[], [], []] } ]
+          [(1, 1), (2, 2)] [(11, 11), (12, 2), (13, 13)] :=
+  ⟨by unfold WF; decide, by unfold WF; decide, by decide, by decide, by decide⟩
 
 /-- **synth_refused**: a table with a key outside operand 1 or a value outside operand 2 is never
 executed (`IsCorrectlyDefined()` is false, `Execute()` gives nothing; the operands are values and
